@@ -245,7 +245,7 @@ func exec(kind string, in []string) []string {
 	if kind == "luapar" {
 		dump = smtpd.SortWithinBoxes(dump)
 	}
-	return []string{strings.Join(reps, "|"), mt, rt, env.HdrTable(), dump, status}
+	return []string{strings.Join(reps, "|"), mt, rt, env.HdrTable(), dump, status + ";" + env.IPTable()}
 }
 
 func main() { vh.Main(gen, exec) }
